@@ -78,7 +78,10 @@ static void do_set_timer(tm_rec *t, int clock, int64_t delta, uint64_t interval,
 	else st = mk_time(clock, delta, &e->start);
 	e->far = forever || delta > (int64_t)(30 * NSEC);
 	e->call = h_stamp();
-	if (t->nep && !t->ep[t->nep - 1].ret) { e->amb = 1; t->ep[t->nep - 1].amb = 1; }   // overlapping set_timer calls
+	// overlapping set_timer calls: if ANY earlier call has not returned yet, its effect may still land after this
+	// one's, so every configuration from that one on is ambiguous in order (the first version only looked at the
+	// immediately preceding call: a false alarm of the first thorough soak)
+	for (int j = 0; j < t->nep; j++) if (!t->ep[j].ret) { for (int k = j; k < t->nep; k++) t->ep[k].amb = 1; e->amb = 1; break; }
 	t->fires_latest = 0;
 	t->nep++;   // visible to the handler from the call on
 	h_log("timer %d set_timer clock=%s start=%+ld ns interval=%lu old-budget %d", t->id, clk_names[e->clock], (long)delta, (unsigned long)interval, sharp);
